@@ -67,7 +67,7 @@ class Worker:
         env.pop("PYTHONPATH", None)
         if self.role == "host":
             env["PYTHONPATH"] = REPO
-        if self.extra:
+        if self.extra and self.extra != "zygote":
             env["VF_WORKER_EXTRA"] = self.extra
         self.proc = subprocess.Popen(
             [exe, "-u", os.path.join(HERE, "refworker.py")],
